@@ -400,10 +400,20 @@ func run(e *core.Env) {
 		nOps = 250 + tp.Intn(500)
 		weights = []int{60, 1, 1, 1, 4, 0}
 	}
+	aimClean, aimAfter := false, time.Duration(0)
 	for op := 0; op < nOps; op++ {
 		e.Step()
 		before := w.rt.VerifEntries()
-		switch tp.Pick(weights...) {
+		pick := tp.Pick(weights...)
+		if aimClean {
+			// the route added in the previous step carries the earliest expiry in the table:
+			// the clock passes it, then the table is cleaned
+			aimClean = false
+			time.Sleep(aimAfter)
+			pick = 4
+			e.Probe("cleanup_right_after_the_earliest_expiry_passed")
+		}
+		switch pick {
 		case 0: // AddRoute
 			var entry m.RoutingTableEntry
 			peer := tp.Chance(1, 5)
@@ -466,6 +476,19 @@ func run(e *core.Env) {
 					entry.Expires = time.Now().Add(time.Duration(tp.Intn(600)) * time.Second) // below the 10 min floor
 				default:
 					entry.Expires = time.Now().Add(610*time.Second + time.Duration(tp.Intn(86400))*time.Second)
+				}
+				// Aimed: a destination that already holds three non-peer routes gets a further one
+				// with an expiry just above the floor - as a rule the earliest in the table -
+				// and the next step is a cleanup a moment after that expiry has passed.
+				held := 0
+				for i := range before {
+					if before[i].DstIP == dst && before[i].Source != m.RouteSourcePeer {
+						held++
+					}
+				}
+				if held >= 3 && tp.Chance(1, 4) {
+					entry.Expires = time.Now().Add(601*time.Second + time.Duration(tp.Intn(20))*time.Second)
+					aimClean, aimAfter = true, time.Until(entry.Expires)+time.Duration(1+tp.Intn(120))*time.Second
 				}
 			}
 			var added bool
